@@ -43,6 +43,8 @@ def parseItem (s : String) : Option Item :=
   | [] => none
   | 'o' :: [] => some { kind := 'o' }
   | k :: rest =>
+    -- `G…` is an RRSIG with an inverted validity window: same expiration, nothing else the model reads
+    let k := if k == 'G' then 'g' else k
     match (String.ofList rest).splitOn "/" with
     | [t] => do some { kind := k, ttl := ← t.toNat? }
     | [t, a] => do some { kind := k, ttl := ← t.toNat?, a := ← a.toInt? }
@@ -741,6 +743,10 @@ def stepTTL (st : State) (w : List String) : State × String :=
       | some n => (st, toString n)
       | none => (st, "none")
     | none => (st, "bad-op")
+  | ["ttl", "sig", ttl, tue, _inv] =>
+    match ttl.toNat?, tue.toInt? with
+    | some ttl, some tue => (st, toString (getRRSIGTTL cfg.minC ttl tue 0))
+    | _, _ => (st, "bad-op")
   | ["ttl", "sig", ttl, tue] =>
     match ttl.toNat?, tue.toInt? with
     | some ttl, some tue => (st, toString (getRRSIGTTL cfg.minC ttl tue 0))
